@@ -283,6 +283,24 @@ theorem observation_independent (c : Cfg K S σ) (hdt : 0 < c.dt) (he0 : 0 ≤ c
     show stateAfter c u0 (run c u0 trs).steps = stateAfter c u0 (run c u0 trs').steps
     rw [hs]
 
+/-- the property as a user reads it: `N` whole steps, any read-only trackers with any schedules,
+the model's own fuel: `N` steps, `t_final = t_end`, final state = `N`-fold iterate, "Reached final
+time", initial state untouched -/
+theorem whole_range_exact_readonly (c : Cfg K S σ) (hdt : 0 < c.dt) (he0 : 0 < c.eps)
+    (he1 : c.eps < 1 / 2) (N : Nat) (hN : c.tEnd - c.tStart = N * c.dt) (u0 : S)
+    (trs : List (Tracker K S σ)) (h : ∀ tr ∈ trs, tr.ReadOnly) :
+    (run c u0 trs).steps = N ∧ (run c u0 trs).tFinal = c.tEnd ∧
+      (run c u0 trs).state = stateAfter c u0 N ∧ (run c u0 trs).exit = .final ∧
+      (run c u0 trs).exit.reason = "Reached final time" ∧ (run c u0 trs).initial = u0 := by
+  have e := readonly_reaches_final c hdt he0.le he1 u0 trs h
+  have hre : (runFuel c u0 trs (defaultFuel c)).exit.reachedEnd := by
+    show (run c u0 trs).exit.reachedEnd; rw [e]; trivial
+  obtain ⟨h1, h2⟩ := whole_range_exact c hdt he0 he1 N hN u0 trs (defaultFuel c) hre
+  refine ⟨h1, h2, ?_, e, by rw [e]; rfl, rfl⟩
+  have := state_is_iterate c u0 trs (defaultFuel c)
+  rw [h1] at this
+  exact this
+
 /-- the same for trackers that may ask to stop: whenever both runs get to the end of the loop -/
 theorem observation_independent_of_reachedEnd (c : Cfg K S σ) (hdt : 0 < c.dt) (he1 : c.eps < 1 / 2)
     (u0 : S) (trs trs' : List (Tracker K S σ)) (fuel fuel' : Nat)
